@@ -74,7 +74,9 @@ pub fn run_case(
     let inputs = &case.inputs;
     tr.emit(json!({
         "ev": "case", "prop": "C14", "id": id, "key": en.key, "op": op.name(), "dt": dt.name(),
-        "cls": case.cls, "special": special, "commutative": op.is_commutative(),
+        // threshold entries: the dimensions go to `dims`, the signature class stays coarse
+        "cls": if en.thr { "threshold" } else { case.cls.as_str() }, "dims": case.cls,
+        "special": special, "commutative": op.is_commutative(),
         "in_place": [], "n_out": en.n_out, "num": en.num, "exact": exact_inputs(inputs),
         "inputs": inputs.iter().map(|i| i.json()).collect::<Vec<_>>(),
     }));
@@ -306,6 +308,7 @@ pub fn main() -> i32 {
     let only = vcommon::arg("--only");
     let exhaustive_all = std::env::args().any(|a| a == "--exhaustive3");
     let big = std::env::args().any(|a| a == "--big");
+    let thr = std::env::args().any(|a| a == "--thr");
     let mut tr = Trace::create(&out);
     let mut rng = Rng::from_env();
     let cat = catalogue();
@@ -339,7 +342,7 @@ pub fn main() -> i32 {
                 continue;
             }
         }
-        if en.nondet || (en.big && !big) {
+        if en.nondet || (en.big && !big) || (en.thr && !thr) {
             continue;
         }
         let op = match en.load() {
@@ -353,7 +356,7 @@ pub fn main() -> i32 {
             for k in 0..(if en.big { cases.min(2) } else { cases }) {
                 let special = k % 4 == 3;
                 let case = {
-                    let mut g = G { rng: &mut rng, dt, special, exact: en.num == 1 && k % 2 == 0 };
+                    let mut g = G { rng: &mut rng, dt, special: special && !en.thr, exact: en.thr || (en.num == 1 && k % 2 == 0) };
                     (en.gen_fn)(&mut g)
                 };
                 id += 1;
